@@ -36,6 +36,10 @@ def _has_backslash_escapes(d: str) -> bool:
     return "\\" in common.core_tables(d)["string_escapes"]
 
 
+def _rich_escapes(d: str) -> bool:
+    return len(common.core_tables(d)["string_escapes"]) > 1
+
+
 def obligations(tier: str, seed: int) -> tuple[list[Obl], dict]:
     groups = common.group_dialects(common.quote_signature)
     fams = families()
@@ -60,7 +64,9 @@ def obligations(tier: str, seed: int) -> tuple[list[Obl], dict]:
             add(f[0], f, "raw", 0, 1, "both", 90)
             if i % 2 == seed % 2:
                 add(f[0], f, "national", 0, 1, "both", 90)
-            if i % 4 == rot:
+            if i % 4 == rot or _rich_escapes(f[0]):
+                # two-character values reach escape/escape and escape/delimiter interactions; always explored where the
+                # tokenizer has more than one string escape character, by rotation elsewhere
                 add(f[0], f, "string", 2, 2, False, 150)
             if i % 13 == seed % 13:
                 add(f[0], f, "comment", 1, 1, False, 240, pt=30.0)
